@@ -144,6 +144,9 @@ Judge(r) ==
      \o f(crash /\ rootop \in {"observe_on", "delay"}, "C07")
      \o f(r.late /\ rootop \in {"subscribe_on", "delay_subscription"}, "C17")
      \o f(r.stuck, "C14")
+     (* wait_for_end returns only when the source has terminated: the status asked right afterwards by the same thread is not "running" *)
+     \o f(\E t \in 1..Len(C.threads) : \E i \in 1..(Len(C.threads[t]) - 1) :
+            C.threads[t][i].k = "stwait" /\ C.threads[t][i + 1].k = "stq" /\ Len(r.rets[t]) > i /\ r.rets[t][i + 1] = I(0), "C14")
 
 VARIABLE i
 Init == i = 1
